@@ -20,17 +20,25 @@ fn zero_instant() -> Instant {
 // PROPS: C17
 // TIER: quick
 // TIMEOUT: 120
-// DRIVES: TimedMessage::cmp, TimedMessage::partial_cmp
-// BOUNDS: all pairs/triples of instants within 2^20 s of each other; all channel ids
+// DRIVES: TimedMessage::cmp, TimedMessage::partial_cmp, LinkConditioner::insert
+// BOUNDS: 3 inserted messages with symbolic instants within 2^20 s of each other and symbolic channel ids; unwind 4
+// UNWINDSET: BinaryHeap::<link_conditioner::TimedMessage>::sift_up=3
 #[kani::proof]
+#[kani::stub(fastrand::Rng::new, seeded_rng)]
+#[kani::unwind(4)]
 fn c17_timed_message_order() {
     let base = zero_instant();
-    let mk = |t: Instant| TimedMessage { timestamp: t, channel_id: kani::any(), message: Bytes::new() };
-    let a = mk(instant_after(base, 1 << 20));
-    let b = mk(instant_after(base, 1 << 20));
-    let c = mk(instant_after(base, 1 << 20));
-    assert!(a.cmp(&b) == b.cmp(&a).reverse());
-    assert!(a.partial_cmp(&b) == Some(a.cmp(&b)));
+    // Build the messages through `insert` so that the harness does not depend on the fields of
+    // `TimedMessage`; the heap's backing vector is then inspected in whatever order it has.
+    let mut conditioner = LinkConditioner::default();
+    conditioner.insert(None, instant_after(base, 1 << 20), kani::any(), Bytes::new());
+    conditioner.insert(None, instant_after(base, 1 << 20), kani::any(), Bytes::new());
+    conditioner.insert(None, instant_after(base, 1 << 20), kani::any(), Bytes::new());
+    let v = conditioner.heap.into_vec();
+    assert!(v.len() == 3);
+    let (a, b, c) = (&v[0], &v[1], &v[2]);
+    assert!(a.cmp(b) == b.cmp(a).reverse());
+    assert!(a.partial_cmp(b) == Some(a.cmp(b)));
     // Earlier messages have higher priority in the max-heap.
     if a.timestamp < b.timestamp {
         assert!(a > b);
@@ -41,13 +49,12 @@ fn c17_timed_message_order() {
     }
     kani::cover!(a.timestamp == b.timestamp && a.channel_id != b.channel_id, "equal stamps on different channels");
     kani::cover!(a.timestamp < b.timestamp, "strictly ordered stamps");
-    core::mem::forget((a, b, c));
+    core::mem::forget(v);
 }
 
 fn queue_fifo(n: usize) {
     let base = zero_instant();
-    // `Rng::default()` seeds itself from the thread id and the clock (FFI); the generator is unused with config = None.
-    let mut conditioner = LinkConditioner { rng: Rng::with_seed(0), heap: BinaryHeap::new() };
+    let mut conditioner = LinkConditioner::default();
     let mut stamps = [base; 5];
     let mut channels = [0u8; 5];
     let mut now = base;
@@ -86,13 +93,14 @@ fn queue_fifo(n: usize) {
 
 // HARNESS: c17_queue_fifo_4
 // PROPS: C17
-// TIER: quick
-// TIMEOUT: 600
+// TIER: thorough
+// TIMEOUT: 1200
 // DRIVES: LinkConditioner::insert, LinkConditioner::pop, TimedMessage::cmp, TimedMessage::partial_cmp
-// BOUNDS: 4 messages on 2 channels, symbolic non-decreasing stamps (equal stamps allowed), config = None; unwind 6, heap sift loops 3 (depth of a 4-element heap is 2), mem::swap chunk loop 8 (56-byte TimedMessage)
+// BOUNDS: 4 messages on 2 channels, symbolic non-decreasing stamps (equal stamps allowed), config = None; unwind 6, heap sift loops 3 (depth of a 4-element heap is 2), mem::swap chunk loop 10 (TimedMessage up to 72 bytes) (56-byte TimedMessage)
 // ASSUME: no link conditioner configured (config = None), as in the property statement
-// UNWINDSET: BinaryHeap::<link_conditioner::TimedMessage>::sift_up=3; BinaryHeap::<link_conditioner::TimedMessage>::sift_down_to_bottom=3; swap_nonoverlapping_chunks=8
+// UNWINDSET: BinaryHeap::<link_conditioner::TimedMessage>::sift_up=3; BinaryHeap::<link_conditioner::TimedMessage>::sift_down_to_bottom=3; swap_nonoverlapping_chunks=10
 #[kani::proof]
+#[kani::stub(fastrand::Rng::new, seeded_rng)]
 #[kani::unwind(6)]
 fn c17_queue_fifo_4() {
     queue_fifo(4);
@@ -103,11 +111,84 @@ fn c17_queue_fifo_4() {
 // TIER: thorough
 // TIMEOUT: 1800
 // DRIVES: LinkConditioner::insert, LinkConditioner::pop, TimedMessage::cmp, TimedMessage::partial_cmp
-// BOUNDS: 5 messages on 2 channels, symbolic non-decreasing stamps, config = None; unwind 7, heap sift loops 4, swap chunk loop 8
+// BOUNDS: 5 messages on 2 channels, symbolic non-decreasing stamps, config = None; unwind 7, heap sift loops 4, swap chunk loop 10
 // ASSUME: no link conditioner configured (config = None), as in the property statement
-// UNWINDSET: BinaryHeap::<link_conditioner::TimedMessage>::sift_up=4; BinaryHeap::<link_conditioner::TimedMessage>::sift_down_to_bottom=4; swap_nonoverlapping_chunks=8
+// UNWINDSET: BinaryHeap::<link_conditioner::TimedMessage>::sift_up=4; BinaryHeap::<link_conditioner::TimedMessage>::sift_down_to_bottom=4; swap_nonoverlapping_chunks=10
 #[kani::proof]
+#[kani::stub(fastrand::Rng::new, seeded_rng)]
 #[kani::unwind(7)]
 fn c17_queue_fifo_5() {
     queue_fifo(5);
+}
+
+/// `n` messages read in ONE receiver frame (all stamped with the same `now`, as `receive_packets`
+/// does), on symbolic channels, then `k` more in a later frame; everything popped afterwards.
+fn frames_fifo(n_first: usize, n_second: usize) {
+    let t0 = zero_instant();
+    let t1 = t0 + Duration::from_millis(16);
+    let mut conditioner = LinkConditioner::default();
+    const IDS: [&[u8]; 8] = [&[0], &[1], &[2], &[3], &[4], &[5], &[6], &[7]];
+    let mut channels = [0u8; 8];
+    let total = n_first + n_second;
+    for i in 0..total {
+        let ch: u8 = kani::any();
+        // ASSUME: two channels (ids 0 and 1)
+        kani::assume(ch < 2);
+        channels[i] = ch;
+        conditioner.insert(None, if i < n_first { t0 } else { t1 }, ch, Bytes::from_static(IDS[i]));
+    }
+    let mut seen = [false; 8];
+    let mut last_on_channel = [-1i32; 2];
+    let mut count = 0;
+    while let Some((ch, msg)) = conditioner.pop(t1) {
+        let id = msg[0] as usize;
+        assert!(id < total);
+        assert!(!seen[id]); // exactly once
+        seen[id] = true;
+        assert!(channels[id] == ch); // on the channel it was sent on
+        assert!((id as i32) > last_on_channel[ch as usize]); // per-channel sending order
+        last_on_channel[ch as usize] = id as i32;
+        count += 1;
+        core::mem::forget(msg);
+    }
+    assert!(count == total); // nothing lost
+    kani::cover!(channels[0] == channels[total - 1], "first and last message share a channel");
+    kani::cover!(channels[0] != channels[1], "interleaved channels");
+    core::mem::forget(conditioner);
+}
+
+// HARNESS: c17_same_frame_fifo_4
+// PROPS: C17
+// TIER: quick
+// TIMEOUT: 600
+// DRIVES: LinkConditioner::insert, LinkConditioner::pop, TimedMessage::cmp, TimedMessage::partial_cmp
+// BOUNDS: 4 messages read in one receiver frame (one common stamp), every assignment to 2 channels, config = None; unwind 7, heap sift loops bounded by the heap depth, mem::swap chunk loop 10 (TimedMessage up to 72 bytes)
+// ASSUME: no link conditioner configured (config = None), as in the property statement
+// UNWINDSET: BinaryHeap::<link_conditioner::TimedMessage>::sift_up=3; BinaryHeap::<link_conditioner::TimedMessage>::sift_down_to_bottom=3; swap_nonoverlapping_chunks=10
+#[kani::proof]
+#[kani::stub(fastrand::Rng::new, seeded_rng)]
+#[kani::unwind(7)]
+fn c17_same_frame_fifo_4() {
+    frames_fifo(4, 0);
+}
+
+// HARNESS: c17_two_frames_fifo_2_2
+// PROPS: C17
+// TIER: quick
+// TIMEOUT: 600
+// DRIVES: LinkConditioner::insert, LinkConditioner::pop, TimedMessage::cmp, TimedMessage::partial_cmp
+// BOUNDS: 2 messages stamped t0 then 2 stamped t0+16ms (receiver did not pop in between), every assignment to 2 channels, config = None; unwind 7, heap sift loops bounded by the heap depth, mem::swap chunk loop 10 (TimedMessage up to 72 bytes)
+// ASSUME: no link conditioner configured (config = None), as in the property statement
+// UNWINDSET: BinaryHeap::<link_conditioner::TimedMessage>::sift_up=3; BinaryHeap::<link_conditioner::TimedMessage>::sift_down_to_bottom=3; swap_nonoverlapping_chunks=10
+#[kani::proof]
+#[kani::stub(fastrand::Rng::new, seeded_rng)]
+#[kani::unwind(7)]
+fn c17_two_frames_fifo_2_2() {
+    frames_fifo(2, 2);
+}
+
+/// Environment fake: `Rng::new()` seeds itself from the thread id and the clock (FFI, and it trips a
+/// Kani 0.68 internal compiler error); the generator is never used with `config = None`.
+fn seeded_rng() -> Rng {
+    Rng::with_seed(0)
 }
